@@ -21,7 +21,7 @@ import math
 import torch.fx as fx
 from .features_calculation import FlattenFeaturesCalculator, ConcatFeaturesCalculator, \
     ConstFeaturesCalculator
-from .utils import try_get_args
+from .utils import try_get_args, normalize_dim
 from .inspection import is_features_propagating_op, is_features_defining_op, \
     is_shared_input_features_op, is_flatten, is_squeeze, is_unsqueeze, \
     is_features_concatenate, is_non_tensor_op, \
@@ -91,7 +91,7 @@ def add_features_calculator(mod: fx.GraphModule, extra_rules: List[Callable] = [
             # NAS-able one, for which some features # could be de-activated
             ifc = n.all_input_nodes[0].meta['features_calculator']
             input_shape = n.all_input_nodes[0].meta['tensor_meta'].shape
-            start_dim = try_get_args(n, mod, 1, 'start_dim', 0)
+            start_dim = normalize_dim(try_get_args(n, mod, 1, 'start_dim', 0), len(input_shape))
             end_dim = try_get_args(n, mod, 2, 'end_dim', -1)
             assert start_dim != 0 and len(input_shape) - start_dim != 0, \
                 "Flattening the batch not supported"
@@ -104,7 +104,7 @@ def add_features_calculator(mod: fx.GraphModule, extra_rules: List[Callable] = [
         elif n.meta['unsqueeze']:
             ifc = n.all_input_nodes[0].meta['features_calculator']
             input_shape = n.all_input_nodes[0].meta['tensor_meta'].shape
-            dim = try_get_args(n, mod, 1, 'dim', None)
+            dim = normalize_dim(try_get_args(n, mod, 1, 'dim', None), len(input_shape) + 1)
             # TODO: add support for no dim by looking at which dimensions are 1
             if dim is None:
                 raise ValueError("Squeeze without dim not supported")
@@ -119,7 +119,7 @@ def add_features_calculator(mod: fx.GraphModule, extra_rules: List[Callable] = [
             # Squeeze is similar to flatten but the pytorch operation is slightly different
             ifc = n.all_input_nodes[0].meta['features_calculator']
             input_shape = n.all_input_nodes[0].meta['tensor_meta'].shape
-            dim = try_get_args(n, mod, 1, 'dim', None)
+            dim = normalize_dim(try_get_args(n, mod, 1, 'dim', None), len(input_shape))
             # TODO: add support for no dim by looking at which dimensions are 1
             if dim is None:
                 raise ValueError("Squeeze without dim not supported")
@@ -199,7 +199,7 @@ def associate_input_features(mod: fx.GraphModule):
             n.meta['input_features_set_by'] = n.all_input_nodes
         elif prev.meta['flatten']:
             input_shape = prev.all_input_nodes[0].meta['tensor_meta'].shape
-            start_dim = try_get_args(prev, mod, 1, 'start_dim', 0)
+            start_dim = normalize_dim(try_get_args(prev, mod, 1, 'start_dim', 0), len(input_shape))
             assert start_dim != 0 and len(input_shape) - start_dim != 0, \
                 "Flattening the batch not supported"
             # if flatten includes the channels
@@ -209,7 +209,7 @@ def associate_input_features(mod: fx.GraphModule):
                 n.meta['input_features_set_by'] = prev.meta['input_features_set_by']
         elif prev.meta['unsqueeze']:
             input_shape = prev.all_input_nodes[0].meta['tensor_meta'].shape
-            dim = try_get_args(prev, mod, 1, 'dim', None)
+            dim = normalize_dim(try_get_args(prev, mod, 1, 'dim', None), len(input_shape) + 1)
             if dim is None:
                 raise ValueError("Unsqueeze without dim not supported")
             if dim == 0 or dim == 1:
@@ -218,7 +218,7 @@ def associate_input_features(mod: fx.GraphModule):
                 n.meta['input_features_set_by'] = prev.meta['input_features_set_by']
         elif prev.meta['squeeze']:
             input_shape = prev.all_input_nodes[0].meta['tensor_meta'].shape
-            dim = try_get_args(prev, mod, 1, 'dim', None)
+            dim = normalize_dim(try_get_args(prev, mod, 1, 'dim', None), len(input_shape))
             if dim is None:
                 raise ValueError("Squeeze without dim not supported")
             assert dim != 0 and len(input_shape) - dim != 0, \
